@@ -535,8 +535,8 @@ def rule_prev(ck):
 
 
 def run(ck):
-    rule_order(ck)
-    rule_escape(ck)
-    rule_binding(ck)
-    rule_active(ck)
-    rule_prev(ck)
+    ck.attempt(rule_order)
+    ck.attempt(rule_escape)
+    ck.attempt(rule_binding)
+    ck.attempt(rule_active)
+    ck.attempt(rule_prev)
